@@ -49,8 +49,23 @@ WANT = {"C02"}
 WEIGHTS = {"remove_ws": 4, "remove_parent": 4, "move": 4, "copy": 4, "pg_add": 4, "reopen": 3}
 
 
+def directed(rng, ops):
+    """A third of the histories get a block that makes a data move possible: two objects of one class and size, data on
+    the first, one of them put into a property group, then moves (biased to data listed in a property group)."""
+    if rng.random() < 0.66:
+        return ops
+    r = lambda: rng.randrange(1 << 20)  # noqa: E731
+    b, c = r(), r()
+    block = [{"k": "create_object", "a": r(), "b": b, "c": c, "uid": None}, {"k": "create_object", "a": r(), "b": b, "c": c, "uid": None}]
+    block += [{"k": "add_data", "a": r(), "b": r(), "c": 1 + 3 * r(), "uid": None} for _ in range(rng.randrange(2, 5))]
+    block += [{"k": "pg_add", "a": r(), "b": r(), "c": r(), "uid": None} for _ in range(rng.randrange(1, 4))]
+    block += [{"k": "move", "a": r(), "b": r(), "c": 2 * r(), "uid": None} for _ in range(rng.randrange(1, 3))]
+    at = rng.randrange(0, len(ops) + 1)
+    return ops[:at] + block + ops[at:]
+
+
 def run(ctx: Ctx):
-    wscheck.run_props(ctx, WANT, weights=WEIGHTS)
+    wscheck.run_props(ctx, WANT, weights=WEIGHTS, shape=directed)
 
 
 def replay(ctx: Ctx, payload):
